@@ -359,6 +359,85 @@ func runC12(c *kit.Ctx) {
 				okQ = ok && recv.Index == 1 && recv.Tuple == ex.Tuple
 			}
 		}
+		if !okQ && len(qb) == 1 {
+			// the group may travel through a list of (connection, calls) pairs built from the map
+			fieldOf := func(v ssa.Value) (ssa.Value, int, bool) {
+				switch x := kit.Root(v).(type) {
+				case *ssa.Field:
+					return kit.Root(x.X), x.Field, true
+				case *ssa.UnOp:
+					if fa, ok := x.X.(*ssa.FieldAddr); ok {
+						return kit.Root(fa.X), fa.Field, true
+					}
+				}
+				return nil, 0, false
+			}
+			rb, rf, ok1 := fieldOf(qb[0].Common().Value)
+			ab, af, ok2 := fieldOf(qb[0].Common().Args[1])
+			if ok1 && ok2 && rb == ab && rf != af {
+				// rb: an element of the pair list (load of &list[i], or the address itself)
+				var list ssa.Value
+				if al, isAl := rb.(*ssa.Alloc); isAl {
+					// a range value copied into a local struct variable
+					if sts := kit.StoresTo(al); len(sts) == 1 {
+						rb = kit.Root(sts[0])
+					}
+				}
+				switch e := rb.(type) {
+				case *ssa.UnOp:
+					if ia, ok := e.X.(*ssa.IndexAddr); ok {
+						list = ia.X
+					}
+				case *ssa.IndexAddr:
+					list = e.X
+				}
+				if list != nil {
+					// every pair appended to a list of that type is {key, value} of one map iteration
+					nApp, okApp := 0, true
+					for _, ci := range kit.Calls(sb, "builtin.append") {
+						call := ci.(*ssa.Call)
+						if !types.Identical(call.Type(), list.Type()) {
+							continue
+						}
+						nApp++
+						els := elemsOfVariadic(call.Call.Args[1])
+						if len(els) != 1 {
+							okApp = false
+							continue
+						}
+						// the element: a struct value loaded from a literal whose two fields are stored
+						var lit *ssa.Alloc
+						if l, ok := kit.Strip(els[0]).(*ssa.UnOp); ok {
+							lit, _ = l.X.(*ssa.Alloc)
+						}
+						if lit == nil {
+							okApp = false
+							continue
+						}
+						byField := map[int]ssa.Value{}
+						for _, r := range kit.Referrers(lit) {
+							if fa, ok := r.(*ssa.FieldAddr); ok {
+								for _, rr := range kit.Referrers(fa) {
+									if st, ok := rr.(*ssa.Store); ok && st.Addr == ssa.Value(fa) {
+										byField[fa.Field] = kit.Root(st.Val)
+									}
+								}
+							}
+						}
+						k, isK := byField[rf].(*ssa.Extract)
+						v, isV := byField[af].(*ssa.Extract)
+						if !isK || !isV || k.Index != 1 || v.Index != 2 || k.Tuple != v.Tuple {
+							okApp = false
+							continue
+						}
+						if _, isNext := k.Tuple.(*ssa.Next); !isNext {
+							okApp = false
+						}
+					}
+					okQ = nApp == 1 && okApp
+				}
+			}
+		}
 		c.Check(okQ, sb, "queue-group-once-unmodified", sb.Pos(), "each group is handed to its own connection's QueueBatch once, as built", "SendBatch no longer queues each group once and unmodified on its connection")
 		// multi.toProto: as.pbs = append(as.pbs, a) in the forward range over m.calls
 		okM := false
